@@ -81,9 +81,74 @@ pub fn net_oracles_build(ctx: &mut Ctx, spec: &NetSpec, built: &Result<Network, 
  * C02 / C11 / C16 / C17 / C08: prediction against the mathematical definition
  * ------------------------------------------------------------------------------------------ */
 
+/// C11 in single precision: a network that is just one feedback block is unrolled by hand — every repetition is
+/// the prediction of a plain network holding the block's layer sequence once (the library's own layers, which C02
+/// decides), the combinations are computed here element by element in f32 (`+`, `-`, `*`, the mean, overwrite).
+/// NaN must meet NaN and an infinity the same infinity; finite values agree exactly where one combination of two
+/// operands decides them, and within rounding of the largest operand otherwise (the mean, several operands).  This sees what the double-precision definition cannot: overflow, NaN and infinities.
+fn block_unroll_oracle(ctx: &mut Ctx, spec: &NetSpec, x: &Tensor, y: &Tensor) {
+    let (inner, loops, inskips, outskips, acc) = match spec.builds.as_slice() {
+        [Build::Feedback { inner, loops, inskips, outskips, acc }] => (inner, *loops, *inskips, *outskips, acc.as_str()),
+        _ => return,
+    };
+    if loops == 0 || inner.iter().any(|l| matches!(l, InnerSpec::Maxpool { .. })) && false { return; }
+    let twin_spec = NetSpec { input: spec.input.clone(), builds: inner.iter().map(|l| Build::Layer(l.clone())).collect(),
+        skipacc: "add".into(), loopacc: "mean".into(), opt: None, obj: "mse".into(), clamp: None };
+    let twin = match net::build(&twin_spec) { Ok(t) => t, Err(_) => return };
+    let n = flat_any(x).len();
+    let shape_like = x.clone();
+    let rep = |v: &Vec<f32>| -> Option<Vec<f32>> {
+        let mut t = shape_like.clone();
+        let mut it = v.iter();
+        match &mut t.data {
+            Data::Single(a) => for e in a.iter_mut() { *e = *it.next()?; },
+            Data::Triple(a) => for m in a.iter_mut() { for r in m.iter_mut() { for e in r.iter_mut() { *e = *it.next()?; } } },
+            _ => return None,
+        }
+        let out = net::try_run(|| twin.predict(&t)).ok()?;
+        let f = flat_any(&out);
+        if f.len() == n { Some(f) } else { None }
+    };
+    let combine = |a: &Vec<f32>, bs: &[Vec<f32>]| -> Vec<f32> {
+        match acc {
+            "add" => { let mut r = a.clone(); for b in bs { for (x, y) in r.iter_mut().zip(b.iter()) { *x += *y; } } r }
+            "sub" => { let mut r = a.clone(); for b in bs { for (x, y) in r.iter_mut().zip(b.iter()) { *x -= *y; } } r }
+            "mul" => { let mut r = a.clone(); for b in bs { for (x, y) in r.iter_mut().zip(b.iter()) { *x *= *y; } } r }
+            "overwrite" => bs.last().cloned().unwrap_or_else(|| a.clone()),
+            _ => { let k = (bs.len() + 1) as f32; (0..a.len()).map(|i| { let mut s = a[i]; for b in bs { s += b[i]; } s / k }).collect() }
+        }
+    };
+    let x0 = flat_any(x);
+    let mut ys: Vec<Vec<f32>> = Vec::new();
+    let mut cur = match rep(&x0) { Some(v) => v, None => return };
+    ys.push(cur.clone());
+    for _ in 1..loops {
+        let inp = if inskips { combine(&cur, std::slice::from_ref(&x0)) } else { cur.clone() };
+        cur = match rep(&inp) { Some(v) => v, None => return };
+        ys.push(cur.clone());
+    }
+    let expect = if outskips && loops >= 2 { combine(&cur, &ys[..loops - 1]) } else { cur };
+    let got = flat_any(y);
+    let exact = acc == "overwrite" || (acc != "mean" && loops <= 2);
+    let scale = ys.iter().chain(std::iter::once(&x0)).flat_map(|v| v.iter()).filter(|v| v.is_finite()).fold(1e-3f64, |m, v| m.max(v.abs() as f64));
+    let same = got.len() == expect.len() && got.iter().zip(expect.iter()).all(|(a, b)| {
+        if a.is_nan() || b.is_nan() { return a.is_nan() && b.is_nan(); }
+        if a.is_infinite() || b.is_infinite() { return a == b; }
+        // sums with cancellation: rounding (and a different, equally valid association of several operands) is relative
+        // to the largest operand, not to the result; a single combination (two operands) is exact
+        if exact { a == b } else { ((*a as f64) - (*b as f64)).abs() <= 1e-5 * scale }
+    });
+    ctx.oracle(same, "block-not-unrolled-sequence",
+        "a feedback block with L loops must output the L-fold repeated application of its layer sequence, later repetitions receiving the previous output combined with the block input, the output combined with the earlier repetition outputs — element by element in single precision",
+        format!("{} predict {}", clip(&spec.token(), 1200), qt(x)), r1(&got), r1(&expect));
+}
+
 pub fn net_oracles_predict(ctx: &mut Ctx, spec: &NetSpec, net: &Network, x: &Tensor, res: &Result<Tensor, String>) {
     if !is(ctx, &["C02", "C11", "C16", "C17", "C08"]) {
         return;
+    }
+    if ctx.prop == "C11" {
+        if let Ok(y) = res { block_unroll_oracle(ctx, spec, x, y); }
     }
     let r = match RNet::build(spec) {
         Ok(r) => r,
@@ -104,6 +169,11 @@ pub fn net_oracles_predict(ctx: &mut Ctx, spec: &NetSpec, net: &Network, x: &Ten
     let (_, out) = r.forward(&f64s(x), &mut m);
     // ties / kinks change which branch is taken; only compare away from them
     if m.0 < 1e-4 {
+        return;
+    }
+    // outside single precision's range the double-precision evaluation of the definition says nothing about the
+    // single-precision result (an intermediate overflows there and not here): left to the bit-exact correspondence
+    if flat_any(y).iter().any(|v| !v.is_finite()) || out.iter().any(|v| !v.is_finite() || v.abs() > 1e37) {
         return;
     }
     let bad = close_vec(&flat_any(y), &out, 2e-4, 1e-5);
@@ -513,7 +583,7 @@ pub fn net_oracles_learn(ctx: &mut Ctx, spec: &NetSpec, net: &Network, job: &Lea
                 desc.clone(), format!("{:?}", flags), "all false".into());
         }
     }
-    if is(ctx, &["C10"]) {
+    if is(ctx, &["C10", "C11"]) {
         for (li, l) in net.layers.iter().enumerate() {
             if let Layer::Feedback(f) = l {
                 let total = f.layers.len();
@@ -739,6 +809,42 @@ pub fn direct_c05(ctx: &mut Ctx) {
             let n = 63;
             let xs: Vec<Tensor> = (0..n).map(|_| input_for(&mut g, &spec.input)).collect();
             let ts: Vec<Tensor> = (0..n).map(|_| target_for(&mut g, &out, &spec.obj)).collect();
+            jobs.push((spec, xs, ts));
+        }
+        // deterministic core: wide dense layers (>= 512 columns in the forward product and in the transposed product of
+        // backward) — a kernel that splits long rows by the number of workers would re-associate their sums
+        for (inp, hid) in [(640usize, 4usize), (4, 640)] {
+            use crate::gen::arch::dense_spec;
+            let dcfg = ArchCfg { dropout: false, wscale: 0.5, ..ArchCfg::small() };
+            let builds = vec![Build::Layer(dense_spec(&mut g, &dcfg, inp, hid, "tanh", true)), Build::Layer(dense_spec(&mut g, &dcfg, hid, 2, "linear", true))];
+            let mut spec = NetSpec { input: Shape::Single(inp), builds, skipacc: "add".into(), loopacc: "mean".into(), opt: None, obj: "mse".into(), clamp: None };
+            spec.opt = Some(random_opt(&mut g));
+            let n = 20;
+            let xs: Vec<Tensor> = (0..n).map(|_| input_for(&mut g, &spec.input)).collect();
+            let ts: Vec<Tensor> = (0..n).map(|_| target_for(&mut g, &Sh::Flat(2), &spec.obj)).collect();
+            jobs.push((spec, xs, ts));
+        }
+        // … and means over many operands at rank 3: a loop connection with five iterations around a convolution (mean
+        // accumulation), and a spatial feedback block with six loops and output skips (mean)
+        {
+            let conv1 = |g: &mut Gen| InnerSpec::Conv { filters: 1, act: "tanh".into(), k: (3, 3), s: (1, 1), p: (1, 1), d: (1, 1), dropout: None,
+                ks: vec![g.tensor_of(&Shape::Triple(1, 3, 3), false)] };
+            let dcfg = ArchCfg { dropout: false, wscale: 0.5, ..ArchCfg::small() };
+            let mut builds = vec![Build::Layer(conv1(&mut g)), Build::Layer(conv1(&mut g)), Build::Layer(conv1(&mut g)),
+                Build::Layer(crate::gen::arch::dense_spec(&mut g, &dcfg, 20, 3, "linear", true))];
+            builds.push(Build::Loopback { outof: 1, into: 1, iterations: 5, scale: "inv".into(), inskips: false });
+            let mut spec = NetSpec { input: Shape::Triple(1, 4, 5), builds, skipacc: "add".into(), loopacc: "mean".into(), opt: None, obj: "mse".into(), clamp: None };
+            spec.opt = Some(random_opt(&mut g));
+            let n = 20;
+            let xs: Vec<Tensor> = (0..n).map(|_| input_for(&mut g, &spec.input)).collect();
+            let ts: Vec<Tensor> = (0..n).map(|_| target_for(&mut g, &Sh::Flat(3), &spec.obj)).collect();
+            jobs.push((spec, xs, ts));
+            let builds = vec![Build::Feedback { inner: vec![conv1(&mut g)], loops: 6, inskips: false, outskips: true, acc: "mean".into() },
+                Build::Layer(crate::gen::arch::dense_spec(&mut g, &dcfg, 20, 3, "linear", true))];
+            let mut spec = NetSpec { input: Shape::Triple(1, 4, 5), builds, skipacc: "add".into(), loopacc: "mean".into(), opt: None, obj: "mse".into(), clamp: None };
+            spec.opt = Some(random_opt(&mut g));
+            let xs: Vec<Tensor> = (0..n).map(|_| input_for(&mut g, &spec.input)).collect();
+            let ts: Vec<Tensor> = (0..n).map(|_| target_for(&mut g, &Sh::Flat(3), &spec.obj)).collect();
             jobs.push((spec, xs, ts));
         }
     }
